@@ -94,7 +94,11 @@ fn resolve_iteratively(
         iter_count += 1;
 
         let is_first_iteration = iter_count == 1;
-        let is_last_iteration = iter_count == max_iterations;
+        // Guesses inside the block only become errors when the
+        // enclosing pass is itself the last one
+        let is_last_iteration =
+            iter_count == max_iterations &&
+            ctx.is_last_iteration;
 
         let result = resolve_once(
             opts,
@@ -124,7 +128,7 @@ fn resolve_iteratively(
         position_at_start,
         labels,
         false,
-        true)?;
+        ctx.is_last_iteration)?;
 
     if !result.unstable
     {
